@@ -8,7 +8,7 @@ From Coq Require Import List NArith Bool.
 From Feox Require Import Gen.Constants Model.Bytes Model.Codec Model.MetaJournal Model.FreeSpace Model.Recovery
                          Model.Migration Proofs.MigrationProofs
                          Proofs.ScanAcceptsProofs Proofs.ScanQuiescentProofs Proofs.ScanGenerationsProofs
-                         Proofs.ScanExpiryProofs Proofs.ScanLegacyProofs.
+                         Proofs.ScanExpiryProofs Proofs.ScanLegacyProofs Proofs.ReadOnlyScanProofs.
 Import ListNotations.
 Local Open Scope N_scope.
 
@@ -43,10 +43,10 @@ Theorem migration_faithful :
     map mr_ts (rep_records r) = map e_ts (o_idx o) /\
     map mr_exp (rep_records r) = map e_exp (o_idx o)
 
-(* ---- at the byte level: a legacy file at rest.  Any version-1/2 file whose selected metadata copy
-   decodes, whose journal is clear and whose data area is records with pairwise distinct keys (all
-   recoverable by version 3) and free blocks in any order: the read-only open of the source reports
-   exactly those records, in key order ... ---- *).
+(* ---- the journal of a source that crashed inside a batch is virtualised, not replayed: the
+   read-only scan steps over every extent the journal names without looking at a byte of it (the
+   outcome is the same whatever those blocks hold), and on any image, whatever it meets, it queues
+   nothing for retirement ---- *).
 Proof. exact migrate_spec_ok. Qed.
 Check migration_faithful :
   forall src allow dst_exists r,
@@ -58,11 +58,45 @@ Check migration_faithful :
     map mr_ts (rep_records r) = map e_ts (o_idx o) /\
     map mr_exp (rep_records r) = map e_exp (o_idx o)
 
+(* ---- the journal of a source that crashed inside a batch is virtualised, not replayed: the
+   read-only scan steps over every extent the journal names without looking at a byte of it (the
+   outcome is the same whatever those blocks hold), and on any image, whatever it meets, it queues
+   nothing for retirement ---- *).
+Print Assumptions migration_faithful.
+
+Theorem read_only_scan_steps_over_a_journaled_extent_unread :
+  forall c version total sector rest rest2 st s n t,
+  c_ro c = true -> s <= sector < s + n ->
+  scan_step c version total sector rest st ((s, n) :: t) = Ok (Advance (s + n) st t) /\
+  scan_step c version total sector rest st ((s, n) :: t) = scan_step c version total sector rest2 st ((s, n) :: t).
+Proof. exact ReadOnlyScanProofs.read_only_scan_steps_over_a_journaled_extent_unread. Qed.
+Check read_only_scan_steps_over_a_journaled_extent_unread :
+  forall c version total sector rest rest2 st s n t,
+  c_ro c = true -> s <= sector < s + n ->
+  scan_step c version total sector rest st ((s, n) :: t) = Ok (Advance (s + n) st t) /\
+  scan_step c version total sector rest st ((s, n) :: t) = scan_step c version total sector rest2 st ((s, n) :: t).
+Print Assumptions read_only_scan_steps_over_a_journaled_extent_unread.
+
+Theorem read_only_scan_queues_nothing :
+  forall c version total img fuel sector st jl st',
+  c_ro c = true ->
+  scan fuel c version total img sector st jl = Ok st' -> rs_retired st' = rs_retired st
+
 (* ---- at the byte level: a legacy file at rest.  Any version-1/2 file whose selected metadata copy
    decodes, whose journal is clear and whose data area is records with pairwise distinct keys (all
    recoverable by version 3) and free blocks in any order: the read-only open of the source reports
    exactly those records, in key order ... ---- *).
-Print Assumptions migration_faithful.
+Proof. exact ReadOnlyScanProofs.read_only_scan_queues_nothing. Qed.
+Check read_only_scan_queues_nothing :
+  forall c version total img fuel sector st jl st',
+  c_ro c = true ->
+  scan fuel c version total img sector st jl = Ok st' -> rs_retired st' = rs_retired st
+
+(* ---- at the byte level: a legacy file at rest.  Any version-1/2 file whose selected metadata copy
+   decodes, whose journal is clear and whose data area is records with pairwise distinct keys (all
+   recoverable by version 3) and free blocks in any order: the read-only open of the source reports
+   exactly those records, in key order ... ---- *).
+Print Assumptions read_only_scan_queues_nothing.
 
 Theorem read_only_open_of_a_legacy_file_at_rest :
   forall allow img m jgen jslot its,
